@@ -208,6 +208,10 @@ func (p *proc) logTail(n int) string {
 type raceReport struct {
 	Key     string   `json:"key"`
 	Regatta bool     `json:"regatta_frame"`
+	// Coro: the report involves regatta's copy of iter.Pull (util/iter), which switches
+	// coroutines through runtime.coroswitch without the race annotations the standard library's
+	// iter.Pull carries; the two sides never run concurrently, the report is an artefact of -race.
+	Coro bool `json:"coroutine_handoff_artefact"`
 	Frames  []string `json:"frames"`
 	Text    string   `json:"text,omitempty"`
 }
@@ -239,7 +243,7 @@ func (p *proc) raceReports() []raceReport {
 				reg = append(reg, strings.TrimPrefix(m[1], "github.com/jamf/regatta/"))
 			}
 		}
-		rr := raceReport{Regatta: len(reg) > 0}
+		rr := raceReport{Regatta: len(reg) > 0, Coro: strings.Contains(t, "github.com/jamf/regatta/util/iter.Pull")}
 		if len(reg) > 4 {
 			reg = reg[:4]
 		}
@@ -422,7 +426,7 @@ func (c *cluster) startFollower() error {
 			fmt.Sprintf("--rest.address=http://127.0.0.1:%d", rest),
 			"--raft.rtt=5ms",
 			"--replication.leader-address=http://" + c.replAddr,
-			"--replication.poll-interval=40ms",
+			"--replication.poll-interval=50ms",
 			"--replication.reconcile-interval=400ms",
 			"--replication.lease-interval=2s",
 		}
